@@ -284,6 +284,7 @@ func c18Sequential(c *core.Ctx) {
 			})
 		}
 	})
+	c.Section("list-purity", c.N(20000, 1000000), c18ListPurity)
 	c.Section("histories", c.N(40000, 2000000), func(cs *core.Case) {
 		r := cs.R
 		n := 1 + r.Intn(4)
@@ -334,6 +335,149 @@ func c18Sequential(c *core.Ctx) {
 	})
 }
 
+// ---- list operations (rtcp.Marshal over decoded packets that alias one datagram) ----
+
+type c18List struct {
+	ps      []rtcp.Packet
+	backing []byte // caller-owned array; the datagram is a prefix of it
+	dgram   []byte
+	perms   [][]int // index lists (sub-lists, reorderings, repetitions); -1 = a fresh PLI
+	base    []uint64
+	hasXR   bool
+}
+
+var c18PLI = &rtcp.PictureLossIndication{SenderSSRC: 0x01020304, MediaSSRC: 0x05060708}
+
+func (l *c18List) build(k int) []rtcp.Packet {
+	var out []rtcp.Packet
+	for _, i := range l.perms[k] {
+		if i < 0 {
+			out = append(out, c18PLI)
+		} else {
+			out = append(out, l.ps[i])
+		}
+	}
+	return out
+}
+
+func (l *c18List) op(k int) (d uint64, pan string) {
+	panicked, v, st := core.Guard(func() {
+		b, err := rtcp.Marshal(l.build(k))
+		d = core.Digest([]byte("L"), b, []byte(errStr(err)))
+	})
+	if panicked {
+		return 0, fmt.Sprintf("%v\n%s", v, st)
+	}
+	return d, ""
+}
+
+// newList decodes a datagram of several frames that lives in a larger array and prepares
+// permutations with baselines taken on an independent pristine decode.
+func newList(r *core.Rand) *c18List {
+	var flat []byte
+	n := 2 + r.Intn(4)
+	for i := 0; i < n; i++ {
+		f := corpusFrame(r)
+		if f == nil || len(f) > 2000 {
+			continue
+		}
+		flat = append(flat, f...)
+	}
+	mk := func() *c18List {
+		l := &c18List{}
+		l.backing = append(append(make([]byte, 0, len(flat)+40), flat...), bytes.Repeat([]byte{0xEE}, 40)...)
+		l.dgram = l.backing[:len(flat):len(l.backing)]
+		ps, err, pan := gUnmarshal(l.dgram)
+		if err != nil || pan != "" {
+			return nil
+		}
+		l.ps = ps
+		for _, p := range ps {
+			if containsXR(p) {
+				l.hasXR = true
+				core.Guard(func() { _, _ = p.Marshal() })
+			}
+		}
+		return l
+	}
+	l := mk()
+	if l == nil || len(l.ps) < 2 {
+		return nil
+	}
+	m := len(l.ps)
+	id := make([]int, m)
+	rev := make([]int, m)
+	for i := range id {
+		id[i], rev[i] = i, m-1-i
+	}
+	l.perms = [][]int{id, rev, {0, -1, m - 1}, {m - 1, 0}, {0, 0, -1, 1}, append([]int{-1}, id...), {1, -1, 0, -1}}
+	for extra := 0; extra < 3; extra++ {
+		var p []int
+		for j := 1 + r.Intn(5); j > 0; j-- {
+			p = append(p, r.Intn(m+1)-1)
+		}
+		l.perms = append(l.perms, p)
+	}
+	// baselines on an independent decode of a copy, one fresh decode per permutation
+	for k := range l.perms {
+		pr := mk()
+		if pr == nil {
+			return nil
+		}
+		pr.perms = l.perms
+		d, pan := pr.op(k)
+		if pan != "" {
+			return nil
+		}
+		l.base = append(l.base, d)
+	}
+	return l
+}
+
+func c18ListPurity(cs *core.Case) {
+	l := newList(cs.R)
+	if l == nil {
+		return
+	}
+	snapBacking := cloneBytes(l.backing)
+	snapPs := make([]rtcp.Packet, len(l.ps))
+	for i, p := range l.ps {
+		snapPs[i] = clonePacket(p)
+	}
+	for k := range l.perms {
+		d, pan := l.op(k)
+		cs.Eval(1)
+		det := func(extra core.W) core.W {
+			w := core.W{"datagram_hex": mon.Hex(snapBacking[:len(l.dgram)], 300), "list_indices(-1=fresh PLI)": l.perms[k], "decoded": vdump(snapPs)}
+			for a, b := range extra {
+				w[a] = b
+			}
+			return w
+		}
+		if pan != "" {
+			cs.Fail("panic/rtcp.Marshal", det(core.W{"panic": pan}))
+			return
+		}
+		cs.Count("list-op")
+		cs.Distinct(core.DigestStr("list", fmt.Sprint(d), fmt.Sprint(k)))
+		if d != l.base[k] {
+			cs.Fail("list/result-differs", det(core.W{"note": "rtcp.Marshal of this list differs from the result on an independent pristine decode (earlier list operations changed something)"}))
+			return
+		}
+		if !bytes.Equal(l.backing, snapBacking) {
+			cs.Fail("list/caller-memory-modified", det(core.W{"backing_after_hex": mon.Hex(l.backing, 300)}))
+			return
+		}
+		for i := range l.ps {
+			a, b := rtcp.Packet(l.ps[i]), snapPs[i]
+			if !mon.SemEqual(a, b) {
+				cs.Fail("list/packet-modified", det(core.W{"index": i, "after": vdump(a)}))
+				return
+			}
+		}
+	}
+}
+
 // ---- concurrency ----
 
 type c18Interval struct {
@@ -370,6 +514,18 @@ func c18Concurrent(cs *core.Case, cfg c18Config, opsPerG int) {
 	for i, o := range shared {
 		pristineP[i], pristineB[i], pristineBacking[i], pristineCap[i] = clonePacket(o.p), cloneBytes(o.buf), cloneBytes(o.backing), mon.DigestCap(o.p)
 	}
+	// shared decoded lists (all members alias one datagram); lists containing an XR are left out
+	// (ExtendedReport.Marshal writes its block headers)
+	var lists []*c18List
+	for tries := 0; len(lists) < 6 && tries < 40; tries++ {
+		if l := newList(r); l != nil && !l.hasXR {
+			lists = append(lists, l)
+		}
+	}
+	listBacking := make([][]byte, len(lists))
+	for i, l := range lists {
+		listBacking[i] = cloneBytes(l.backing)
+	}
 	readOnly := []opKind{opMarshal, opMarshalSize, opDest, opString, opHeader}
 	prev := runtime.GOMAXPROCS(cfg.P)
 	defer runtime.GOMAXPROCS(prev)
@@ -400,6 +556,19 @@ func c18Concurrent(cs *core.Case, cfg c18Config, opsPerG int) {
 				var o *c18Obj
 				var op opKind
 				oi := int32(-1)
+				if len(lists) > 0 && gr.Chance(1, 8) {
+					// rtcp.Marshal over a shared decoded list
+					l := lists[gr.Intn(len(lists))]
+					k := gr.Intn(len(l.perms))
+					d, pan := l.op(k)
+					lg.ops++
+					if pan != "" && len(lg.panics) < 3 {
+						lg.panics = append(lg.panics, "rtcp.Marshal(list): "+pan)
+					} else if d != l.base[k] && len(lg.mismatches) < 3 {
+						lg.mismatches = append(lg.mismatches, fmt.Sprintf("rtcp.Marshal over a shared decoded list, indices %v (goroutine %d, op %d)", l.perms[k], g, n))
+					}
+					continue
+				}
 				switch gr.Intn(3) {
 				case 0: // read-only operation on a shared packet
 					i := gr.Intn(len(shared))
@@ -482,6 +651,11 @@ func c18Concurrent(cs *core.Case, cfg c18Config, opsPerG int) {
 			cs.Fail("concurrent/caller-memory-modified", core.W{"type": o.kind.String(), "flavour": flavNames[o.flav], "backing_before_hex": mon.Hex(pristineBacking[i], 300), "backing_after_hex": mon.Hex(o.backing, 300)})
 		}
 		cs.Count("concurrent-shared-flavour/" + flavNames[o.flav])
+	}
+	for i, l := range lists {
+		if !bytes.Equal(l.backing, listBacking[i]) {
+			cs.Fail("concurrent/list-caller-memory-modified", core.W{"before_hex": mon.Hex(listBacking[i], 300), "after_hex": mon.Hex(l.backing, 300)})
+		}
 	}
 	cs.Distinct(core.Digest(setDigest, []byte(fmt.Sprint(cfg))))
 	// distinct (configuration, shared object, operation) triples that were actually executed concurrently
